@@ -22,7 +22,8 @@ Grammar (shape terms; D = depth bound, 2 quick / 3 thorough):
   elem_d := atom | list[E_{d-1}] | frozenset[hashable E_{d-1}] | dict[K, E_{d-1}] | DC(field_{d-1})
   E_d    := elem_d | Optional[elem_d]             K := str | int | Enum
   field_d:= E_d | pa.Schema | pa.RecordBatch | Annotated[int, ArrowType(int32)] (+ Optional of those)
-  DC(f)  := frozen nested ArrowSerializableDataclass ``(v: f, tag: int = 7)``
+  DC(f)  := frozen nested ArrowSerializableDataclass ``(v: f, tag: int = 7)``; when f is Optional, ``v`` has a NON-None
+            default, so that an explicit ``None`` in a nested value is distinguishable from an absent field
   top    := field_D | Annotated[DC(f), ArrowType(pa.binary())] | nested DC with a Transient field
   forms  := required | with default / default_factory | plus a Transient sibling field set to a non-default
   pairs  := every ordered pair of a 12-annotation core as a two-field class (declaration order != name order)
@@ -302,6 +303,15 @@ class World:
         if cls is None:
             anns: dict[str, Any] = {"v": self.ann(f), "tag": int}
             ns: dict[str, Any] = {"__annotations__": anns, "tag": 7, "__module__": __name__, "_vf_transient": {}}
+            if head(f) == "opt":
+                # an Optional field of a NESTED dataclass gets a non-None default: an explicit None inside a nested value
+                # must not be mistaken for "field absent" (it would come back as the default)
+                d = next((x for x in reversed(self.vals(f)) if x is not None), None)
+                if d is not None:
+                    if isinstance(d, (list, dict, set)) or type(d).__hash__ is None:
+                        ns["v"] = dataclasses.field(default_factory=(lambda d=d: type(d)(d)) if isinstance(d, (list, dict)) else (lambda d=d: d))
+                    else:
+                        ns["v"] = d
             if transient:
                 anns["cache"] = Annotated[object, self.U.Transient()]
                 ns["cache"] = None
